@@ -713,7 +713,10 @@ fn fixed() -> Vec<Inst> {
                exprs: vec![], tags: t("coefficient-overflow-reciprocal") },
         Inst { domain: d(vec![("x", real(-INF, INF))]), constraints: vec![row(mul(k(1e300), mul(k(1e300), v("x"))), ge, k(-5.0), 0)],
                exprs: vec![], tags: t("coefficient-overflow-product") },
-        // known finding C07-float-rounding-var (liveness): absorption in the reverse step of a non-affine row
+        // known finding C07-float-rounding-var (liveness): absorption in the reverse step through a nested sum
+        Inst { domain: d(vec![("x", real(-0.5, 0.5))]), constraints: vec![row(add(abs(mul(k(1e-12), v("x"))), k(1e6)), le, k(1000001.0), 0)],
+               exprs: vec![], tags: t("nested-sum-absorption") },
+        // repaired by 4e5bd4b (regression cases): absorption in the top-level reverse step of a non-affine row
         Inst { domain: d(vec![("x", VariableType::NonNegativeReal(0.0, 1.0)), ("y", VariableType::NonNegativeReal(0.0, 1.0))]),
                constraints: vec![row(Exp::Max(vec![v("x"), v("y")]), le, k(1e16), 0)], exprs: vec![], tags: t("bigm-absorption") },
         Inst { domain: d(vec![("z", real(0.0, 1000.0))]), constraints: vec![row(abs(mul(k(1e-9), v("z"))), le, k(1e9), 0)], exprs: vec![], tags: t("bigm-absorption-partial") },
